@@ -37,6 +37,13 @@ type batchCfg struct {
 	HandlerTimeout int `json:"handler_timeout_s,omitempty"`
 	// health_checks.active (probes_test.go): off, or Helios's own prober probing the raw backends
 	Active probeCfg `json:"active_checks"`
+	// The deployment (deployment_test.go): how many names it has besides the unreachable one and how they look.
+	// Name k has the address of raw backend k % Backends: with more names than raw backends several names
+	// share an address.
+	Names     int    `json:"names"`
+	NameStyle string `json:"name_style"`
+	// what an operator does through the admin API while the batch runs / while requests are parked (admin_test.go)
+	Admin []adminOp `json:"admin_ops,omitempty"`
 }
 
 // kind "slow-backend" (only in batches with the handler timeout configured): the backend has read the
@@ -443,6 +450,7 @@ type snapshot struct {
 	// the same totals as the admin API's /v1/metrics publishes them
 	adminTotal, adminOK, adminFailed, adminLimited uint64
 	readErr                                        string
+	negative                                       string // a gauge below zero, wherever one was published
 }
 
 // published is what the endpoints of one lab serve: /metrics (MetricsHandler), the admin API's /v1/metrics
@@ -519,11 +527,39 @@ func read(l *lab.SocketLab) snapshot {
 	}
 	for _, b := range bl {
 		s.listGauges[b.Name] += b.Active
+		if b.Active < 0 && s.negative == "" {
+			s.negative = fmt.Sprintf("a line of /v1/backends for %s reads active_connections=%d", b.Name, b.Active)
+		}
+	}
+	for name, g := range s.gauges {
+		if g < 0 && s.negative == "" {
+			s.negative = fmt.Sprintf("backend_metrics[%s].active_connections=%d in /metrics", name, g)
+		}
 	}
 	return s
 }
 
 func (s snapshot) String() string {
+	if len(s.perBackend) > 16 {
+		// a large deployment: only the entries that are not zero
+		pb, g, lg := map[string]uint64{}, map[string]int32{}, map[string]int32{}
+		for k, v := range s.perBackend {
+			if v != 0 {
+				pb[k] = v
+			}
+		}
+		for k, v := range s.gauges {
+			if v != 0 {
+				g[k] = v
+			}
+		}
+		for k, v := range s.listGauges {
+			if v != 0 {
+				lg[k] = v
+			}
+		}
+		return fmt.Sprintf("total=%d successful=%d failed=%d rate_limited=%d %d names in /metrics, not zero: per_backend=%v gauges=%v list_gauges=%v", s.total, s.ok, s.failed, s.limited, len(s.perBackend), pb, g, lg)
+	}
 	return fmt.Sprintf("total=%d successful=%d failed=%d rate_limited=%d per_backend=%v gauges=%v list_gauges=%v", s.total, s.ok, s.failed, s.limited, s.perBackend, s.gauges, s.listGauges)
 }
 
@@ -533,21 +569,27 @@ func equalSnap(a, b snapshot) bool { return a.String() == b.String() }
 // metric reads agree. The 2 s limit is a budget, not an oracle.
 func quiesce(l *lab.SocketLab, parked int) (snapshot, bool) {
 	deadline := time.Now().Add(1 * time.Second)
-	prev := read(l)
+	prev, havePrev := read(l), true
 	for time.Now().Before(deadline) {
 		time.Sleep(2 * time.Millisecond)
 		var inflight int64
 		for _, b := range l.Backends {
 			inflight += b.Inflight()
 		}
+		if inflight != int64(parked) {
+			// a backend handler is still running: whatever would be read now is no quiescent reading (and with
+			// hundreds of names every reading is a large document), so nothing is read until they are done
+			havePrev = false
+			continue
+		}
 		cur := read(l)
-		if inflight == int64(parked) && equalSnap(prev, cur) {
+		if havePrev && equalSnap(prev, cur) {
 			time.Sleep(2 * time.Millisecond)
 			if again := read(l); equalSnap(cur, again) {
 				return again, true
 			}
 		}
-		prev = cur
+		prev, havePrev = cur, true
 	}
 	return prev, false
 }
@@ -555,11 +597,11 @@ func quiesce(l *lab.SocketLab, parked int) (snapshot, bool) {
 // checkBooks evaluates the books on quiescent readings until they balance or 3 s have passed
 // (normal settling time is well under a millisecond): internal work of a request whose client
 // has already gone (aborts) is not otherwise observable from outside.
-func checkBooks(l *lab.SocketLab, bc batchCfg, t tally, parkedPer map[int]int, dead bool) string {
+func checkBooks(l *lab.SocketLab, bc batchCfg, t tally, parkedPer map[int]int, dead bool, dep *deployment) string {
 	deadline := time.Now().Add(3 * time.Second)
 	var last string
 	for {
-		last = evalBooks(l, bc, t, parkedPer, dead)
+		last = evalBooks(l, bc, t, parkedPer, dead, dep)
 		if last == "" || time.Now().After(deadline) {
 			return last
 		}
@@ -567,7 +609,9 @@ func checkBooks(l *lab.SocketLab, bc batchCfg, t tally, parkedPer map[int]int, d
 	}
 }
 
-func evalBooks(l *lab.SocketLab, bc batchCfg, t tally, parkedPer map[int]int, dead bool) string {
+func evalBooks(l *lab.SocketLab, bc batchCfg, t tally, parkedPer map[int]int, dead bool, dep *deployment) string {
+	dep.mu.Lock()
+	defer dep.mu.Unlock()
 	parked := 0
 	for _, n := range parkedPer {
 		parked += n
@@ -593,24 +637,34 @@ func evalBooks(l *lab.SocketLab, bc batchCfg, t tally, parkedPer map[int]int, de
 	if s.limited != uint64(t.limited) {
 		return fmt.Sprintf("A2: rate_limited_requests=%d but clients received %d rate-limit answers [%s]", s.limited, t.limited, s)
 	}
-	var sumLive, sumAll uint64
+	// per raw backend: what the names that have its address publish together (one name per address: that name's numbers)
+	describe := func(i int) string {
+		names := dep.names(i)
+		sort.Strings(names)
+		if len(names) == 1 {
+			return names[0]
+		}
+		if len(names) > 4 {
+			return fmt.Sprintf("the %d names at the address of raw backend %d (%s, %s, ... %s)", len(names), i, names[0], names[1], names[len(names)-1])
+		}
+		return fmt.Sprintf("the names %q, all at the address of raw backend %d", names, i)
+	}
 	for i, b := range l.Backends[:bc.Backends] {
-		name := lab.BackendName(i)
 		received := b.Received()
 		if bc.Active.On {
 			received, _ = requestsAndProbes(b) // what the prober sent is not a request the balancer sent the backend
 		}
 		want := uint64(received) - uint64(parkedPer[i]) // parked requests are recorded per backend when they finish
-		got := s.perBackend[name]
+		var got uint64
+		for _, name := range dep.names(i) {
+			got += s.perBackend[name]
+		}
 		// a request whose client aborted the upload may have been dispatched without the backend ever
 		// seeing a complete request head: those are the only permitted slack
 		if got < want || got > want+uint64(t.uploadAborts) {
-			return fmt.Sprintf("A3: backend_metrics[%s].total_requests=%d but the backend has finished %d requests (received %d, %d parked, %d client upload aborts)%s [%s]", name, got, want, received, parkedPer[i], t.uploadAborts, bc.Active.probeNote(l, bc.Backends), s)
+			return fmt.Sprintf("A3: backend_metrics[%s].total_requests=%d (summed, if several) but the backend has finished %d requests (received %d, %d parked, %d client upload aborts); the deployment has had %d names, the documented cap is %d%s [%s]", describe(i), got, want, received, parkedPer[i], t.uploadAborts, len(dep.owner)+deadCount(bc), metricsCap, bc.Active.probeNote(l, bc.Backends), s)
 		}
-		sumLive += got
 	}
-	_ = sumAll
-	_ = sumLive
 	if dead {
 		// requests dispatched to the unreachable backend are answered 502 by the proxy; a client that
 		// aborted its own request does not know whether it was dispatched there
@@ -619,10 +673,25 @@ func evalBooks(l *lab.SocketLab, bc batchCfg, t tally, parkedPer map[int]int, de
 			return fmt.Sprintf("A3: backend_metrics[dead].total_requests=%d but between %d and %d requests were dispatched to the unreachable backend (%d answered 502, %d aborted by the client) [%s]", got, lo, hi, t.bad502, t.clientAborts, s)
 		}
 	}
+	if s.negative != "" {
+		return fmt.Sprintf("A4: %s: no backend has fewer than zero requests in flight [%s]", s.negative, s)
+	}
 	for i := range l.Backends[:bc.Backends] {
-		name := lab.BackendName(i)
-		if int(s.gauges[name]) != parkedPer[i] || int(s.listGauges[name]) != parkedPer[i] {
-			return fmt.Sprintf("A4: %s has %d request(s) in flight but its active_connections gauge reads %d in /metrics and %d in /v1/backends [%s]", name, parkedPer[i], s.gauges[name], s.listGauges[name], s)
+		var gauge, list int
+		for _, name := range dep.names(i) {
+			gauge += int(s.gauges[name])
+			list += int(s.listGauges[name])
+		}
+		// /metrics has one entry per name, whatever has become of the backends registered under it; /v1/backends
+		// lists the registered backends (see deployment: lo..hi is what the admin operations so far leave open)
+		lo, hi := parkedPer[i], parkedPer[i]
+		if dep.gone[i] {
+			lo, hi = 0, 0
+		} else if dep.loose[i] {
+			lo = 0
+		}
+		if gauge != parkedPer[i] || list < lo || list > hi {
+			return fmt.Sprintf("A4: %s: %d request(s) in flight, but the active_connections gauge reads %d in /metrics (want %d) and %d in /v1/backends (want %d..%d; admin operations so far: %v) [%s]", describe(i), parkedPer[i], gauge, parkedPer[i], list, lo, hi, dep.log, s)
 		}
 	}
 	if dead {
@@ -634,12 +703,18 @@ func evalBooks(l *lab.SocketLab, bc batchCfg, t tally, parkedPer map[int]int, de
 }
 
 func TestC13Accounting(t *testing.T) {
-	sub := lab.Sub("accounting-batches", "rapid: lab (5 strategies x 1-3 raw TCP backends, optional unreachable backend, limiter/breaker/passive checks on or off) and a batch of 5-40 requests over kinds "+
+	sub := lab.Sub("accounting-batches", "rapid: lab (5 strategies x a deployment of 1-999 names - 1-3 most often, tens, hundreds, and 850-999: just below the documented 1000-name cap of the per-backend metrics - in 6 naming styles, on 1-6 raw TCP backends: beyond 3 names several names share the address of a raw backend and per-backend numbers are compared per address, summed over its names; optional unreachable backend, limiter/breaker/passive checks on or off) and a batch of 5-40 requests over kinds "+
 		"{2xx, 4xx, 5xx, backend reset mid-body, short body, client abort mid-upload, client abort mid-download, rate-limited client, WebSocket handshake answered 101 whose tunnel is used and then ended by the backend, request parked in flight in a drawn phase (backend silent before its response head / head sent and no body byte / head and parts 1..k of n sent and read by the client / head and 256 KiB-1 MiB sent to a client that stopped reading after the head; cl, chunked or close-delimited)}, issued sequentially or by 2-64 concurrent clients over real sockets; "+
 		"books checked at quiescence while requests are parked (gauges = in flight) and again after release (gauges = 0): A1 total, A2 exactly-one-of successful/failed/rate-limited, A3 per-backend totals = the backends' own tallies and their sum = dispatched, A4 gauges in /metrics and /v1/backends; "+
 		"in a third of the labs health_checks.active is on (interval 2-30 s, timeout 1-2 s, 4 health paths, unhealthy_timeout 0/1/3600 s when passive checks are off) and Helios's own prober probes the raw backends, whose health paths answer as drawn per backend {200, 204, 404, 500, 503, connection reset; the unreachable backend refuses}: probes are no requests - the books are read once on the idle balancer after the start-up probe round (all zero) and then as in every lab, against the backends' tallies of requests (probes told apart by the backends); "+
+		"in about a third of the labs an operator performs 1-5 operations through the admin API (the mux the books are read from): {add a name again that is registered (or was removed by an earlier operation), add a new name at the address of a raw backend (never beyond 999 names), remove a name, remove and add it again, switch the strategy}, each either at a drawn position of the batch (performed by the client that issues that request, the others going on) or after the batch while the parked requests are in flight - the books are then read once more with the requests still parked; no operation is a request and what is in flight stays in flight, so the books are the same; for /v1/backends, which lists registered backends only, the sum per address must equal the parked requests unless a name at that address was removed (0..parked; exactly 0 if it was the only name there and was removed after the batch) or an add of a listed name left the listing as long as it was (0..parked: the outcome of a repeated add - refused, listed twice, replaced - is taken as the listing shows it); no gauge anywhere is ever below zero and on the idle balancer every one is zero; "+
 		"non-trivial = batch contains a failing/rejected/aborted kind")
 	sub.NontrivialFloor(0.70)
+	sub.Floor("deployment-of-850-999-names", 0.015)
+	sub.Floor("several-names-per-address", 0.06)
+	sub.Floor("admin-operations", 0.20)
+	sub.Floor("admin-operation-while-requests-parked", 0.10)
+	sub.Floor("registered-name-added-again-while-requests-parked-at-its-address", 0.04)
 	sub.Floor("active-checks", 0.20)
 	sub.Floor("start-up-probe-failed", 0.12)
 	sub.Floor("has-abort", 0.10)
@@ -665,11 +740,25 @@ func TestC13HandlerTimeout(t *testing.T) {
 
 func accountingBatch(rt *rapid.T, sub *lab.SubCheck, handlerTimeout bool) {
 	{
-		bc := batchCfg{Strategy: rapid.SampledFrom(lab.Strategies).Draw(rt, "strategy"), Backends: rapid.IntRange(1, 3).Draw(rt, "backends"),
+		// the deployment dimension: 1..999 names (the unreachable backend's included) in one of several naming
+		// styles. Up to 3 names: one raw backend each, as ever. More: 1-6 raw backends whose addresses the names share.
+		size := genDeploymentSize(rt, true)
+		style := genNameStyle(rt)
+		raw := size
+		if size > 3 {
+			raw = rapid.IntRange(1, min(6, size)).Draw(rt, "raw_backends")
+		}
+		bc := batchCfg{Strategy: rapid.SampledFrom(lab.Strategies).Draw(rt, "strategy"), Backends: raw, Names: size, NameStyle: style.Label,
 			Dead: rapid.IntRange(0, 3).Draw(rt, "dead") == 0, Limiter: rapid.Bool().Draw(rt, "limiter"), Breaker: rapid.IntRange(0, 2).Draw(rt, "breaker") == 0,
 			Passive: rapid.IntRange(0, 2).Draw(rt, "passive") == 0}
 		bc.Concurrent = rapid.SampledFrom([]int{1, 1, 2, 4, 8, 16, 64}).Draw(rt, "concurrent")
-		bc.Active = genProbes(rt, bc.Backends)
+		if bc.Dead && bc.Names > bc.Backends {
+			bc.Names-- // the unreachable backend's name is one of the deployment's names
+		}
+		if bc.Names <= 64 {
+			// (a larger deployment runs without the prober: a probe per name and round buys nothing for the books)
+			bc.Active = genProbes(rt, bc.Backends)
+		}
 		batchKinds := kinds
 		if handlerTimeout {
 			bc.HandlerTimeout = 1
@@ -683,11 +772,22 @@ func accountingBatch(rt *rapid.T, sub *lab.SubCheck, handlerTimeout bool) {
 				batch[i] = genHold(rt)
 			}
 		}
+		if !handlerTimeout {
+			bc.Admin = genAdmin(rt, bc.Names, n, metricsCap-1-bc.Names-deadCount(bc))
+		}
+		dep := newDeployment(style, bc.Backends, bc.Names)
 		l, err := lab.NewSocketLab(bc.Strategy, lab.SocketOpts{Backends: bc.Backends + deadCount(bc), Mutate: func(cfg *config.Config) {
+			for k := 0; k < bc.Names; k++ {
+				if k < bc.Backends {
+					cfg.Backends[k].Name = style.Name(k)
+				} else {
+					cfg.Backends = append(cfg.Backends, config.BackendConfig{Name: style.Name(k), Address: cfg.Backends[k%bc.Backends].Address, Weight: 1})
+				}
+			}
 			if bc.Dead {
 				// the last raw backend resets every connection it accepts: an unreachable backend whose
 				// port stays reserved for this lab (a closed port could be re-used by another listener)
-				cfg.Backends[len(cfg.Backends)-1].Name = "dead"
+				cfg.Backends[bc.Backends].Name = "dead"
 			}
 			if bc.Limiter {
 				cfg.RateLimit = config.RateLimitConfig{Enabled: true, MaxTokens: 3, RefillRate: 3600}
@@ -728,12 +828,21 @@ func accountingBatch(rt *rapid.T, sub *lab.SubCheck, handlerTimeout bool) {
 			// An idle balancer whose prober has done its start-up round: not one request has reached it, none
 			// was sent to a backend - a quiescent moment like any other, with the books of zero requests.
 			startupProbes = bc.Active.awaitStartupProbes(l, bc.Backends, bc.Dead)
-			if v := checkBooks(l, bc, tally{}, map[int]int{}, bc.Dead); v != "" {
+			if v := checkBooks(l, bc, tally{}, map[int]int{}, bc.Dead, dep); v != "" {
 				rt.Fatalf("lab %+v: before the first request (start-up probe round seen by every backend: %v): %s", bc, startupProbes, v)
+			}
+		}
+		// admin operations drawn for position i are performed by the client that issues request i, just before it
+		adminBefore := func(i int) {
+			for o := range bc.Admin {
+				if bc.Admin[o].At == i {
+					dep.perform(l, &bc.Admin[o], i == n)
+				}
 			}
 		}
 		if bc.Concurrent == 1 {
 			for i, k := range batch {
+				adminBefore(i)
 				issue(l, k, i, &tl, &mu, &holds)
 			}
 		} else {
@@ -748,6 +857,7 @@ func accountingBatch(rt *rapid.T, sub *lab.SubCheck, handlerTimeout bool) {
 				go func() {
 					defer wg.Done()
 					for i := range ch {
+						adminBefore(i)
 						issue(l, batch[i], i, &tl, &mu, &holds)
 					}
 				}()
@@ -770,6 +880,7 @@ func accountingBatch(rt *rapid.T, sub *lab.SubCheck, handlerTimeout bool) {
 			}
 		}
 		var viol string
+		adminWhileParked := false
 		if bc.HandlerTimeout > 0 {
 			// Nobody releases a backend: the parked clients read on and the handler timeout ends every exchange
 			// that is still running (before the head: the proxy answers itself; after the head: the response
@@ -792,10 +903,23 @@ func accountingBatch(rt *rapid.T, sub *lab.SubCheck, handlerTimeout bool) {
 			for _, h := range stillHeld {
 				<-h.done
 			}
-			if viol = checkBooks(l, bc, tl, map[int]int{}, bc.Dead); viol != "" {
+			if viol = checkBooks(l, bc, tl, map[int]int{}, bc.Dead, dep); viol != "" {
 				viol = fmt.Sprintf("after the %d s handler timeout ended the exchanges with silent backends (all ended by it: %v): %s", bc.HandlerTimeout, ended, viol)
 			}
-		} else if viol = checkBooks(l, bc, tl, parkedPer, bc.Dead); viol == "" {
+		} else if viol = checkBooks(l, bc, tl, parkedPer, bc.Dead, dep); viol == "" {
+			// the operator's turn while the parked requests are in flight; then the same books once more
+			before := len(dep.log)
+			adminBefore(n)
+			if len(dep.log) > before && len(stillHeld) > 0 {
+				adminWhileParked = true
+				if viol = checkBooks(l, bc, tl, parkedPer, bc.Dead, dep); viol != "" {
+					viol = fmt.Sprintf("with requests parked, after the admin operations %v: %s", dep.log, viol)
+				}
+			}
+		} else {
+			viol = "with requests parked: " + viol
+		}
+		if bc.HandlerTimeout == 0 && viol == "" {
 			for _, h := range stillHeld {
 				h.release()
 			}
@@ -807,13 +931,11 @@ func accountingBatch(rt *rapid.T, sub *lab.SubCheck, handlerTimeout bool) {
 				}
 			}
 			if viol == "" {
-				viol = checkBooks(l, bc, tl, map[int]int{}, bc.Dead)
+				viol = checkBooks(l, bc, tl, map[int]int{}, bc.Dead, dep)
 				if viol != "" {
-					viol = "after all parked requests were released: " + viol
+					viol = fmt.Sprintf("after all parked requests were released (admin operations: %v): %s", dep.log, viol)
 				}
 			}
-		} else {
-			viol = "with requests parked: " + viol
 		}
 		for _, h := range stillHeld {
 			h.release()
@@ -829,7 +951,22 @@ func accountingBatch(rt *rapid.T, sub *lab.SubCheck, handlerTimeout bool) {
 				hasAbort = true
 			}
 		}
-		labels := []string{bc.Strategy, fmt.Sprintf("concurrent-%d", bc.Concurrent)}
+		labels := []string{bc.Strategy, fmt.Sprintf("concurrent-%d", bc.Concurrent), bc.NameStyle, sizeLabel(len(dep.owner) + deadCount(bc))}
+		if bc.Names > bc.Backends {
+			labels = append(labels, "several-names-per-address")
+		}
+		if len(bc.Admin) > 0 {
+			labels = append(labels, "admin-operations")
+		}
+		if adminWhileParked {
+			labels = append(labels, "admin-operation-while-requests-parked")
+			for _, op := range bc.Admin {
+				if op.At == n && op.Op == "add-again" && parkedPer[op.Name%bc.Backends] > 0 && !strings.Contains(op.Done, "listed 0 time") {
+					labels = append(labels, "registered-name-added-again-while-requests-parked-at-its-address")
+					break
+				}
+			}
+		}
 		if bc.Active.On {
 			labels = append(labels, "active-checks")
 			if startupProbes {
